@@ -313,6 +313,11 @@ def _run_built(case, cls, kw, exact, outer):
             kwx = {"inner": inner_x, "tag": ""} if outer is not None else kw
             res["xline"] = dict({"suite": "serdex", "cls": xcls, "kw": [[k, xwire(v)] for k, v in kwx.items()], "opts": XOPTS},
                                 **xtables(case, [x], [doc]))
+            if case.get("compact"):
+                # serialize(compact=True) reads the wrapper flags from the class's OWN dict (an inheriting subclass is
+                # written in the regular form); compact deserialization honours inherited flags
+                res["xline"]["compactSer"] = case["compact"] == "own"
+                res["xline"]["compactDeser"] = True
             res["x_inst"] = xwire(x)
             res["x_ser"] = {"ok": dump.dump_value(doc)}
         except Exception as e:
@@ -708,7 +713,7 @@ def run_exact(case):
         res["msg"] = str(e)[:200]
         res["x_deser"] = {"err": "InvalidStructureErr" if type(e).__name__ == "InvalidStructureErr" else "TypeError" if isinstance(e, TypeError)
                           else "ValueError" if isinstance(e, ValueError) else type(e).__name__, "msg": str(e)[:200]}
-    xcls = xdecl_class(case, nested=nested)
+    xcls = xdecl_class(dict(case, compact=None), nested=nested)     # (the C06 stream builds the plain class)
     if xcls is not None:
         try:
             from .. import dump
@@ -845,21 +850,29 @@ def xdecl_shape(shape, leafdecl):
         return {"k": "mapStr", "x": inner}
     if tag == "tup2":
         return {"k": "tuplePos", "xs": [inner, {"k": "base", "f": {"k": "integer"}}]}
-    return None         # AnyOf[leaf, Integer]: not in the model
+    if tag == "anyint":
+        return {"k": "anyOf", "xs": [inner, {"k": "base", "f": {"k": "integer"}}]}
+    return None
 
 
 def xdecl_class(case, nested=False):
-    if case.get("compact") or case.get("undef"):
-        return None      # (compact wrappers and the None / Undefined distinction are not in the Lean model)
     fields = []
     for f in case["fields"]:
         leafdecl = xdecl_leaf(f["leaf"])
-        d = xdecl_shape(SHAPES[f["wrap"]], leafdecl) if leafdecl is not None else None
+        if leafdecl is not None and f["wrap"] == "optional-union":      # ONE AnyOf of three options
+            d = {"k": "anyOf", "xs": [leafdecl, {"k": "base", "f": {"k": "integer"}}, {"k": "base", "f": {"k": "noneF"}}]}
+        else:
+            d = xdecl_shape(SHAPES[f["wrap"]], leafdecl) if leafdecl is not None else None
         if d is None:
             return None
         fields.append([f["name"], d])
-    cls = {"k": "struct", "name": "X", "required": [f["name"] for f in case["fields"] if f["wrap"] not in ("optional", "optional-union")],
-           "addl": True, "ignoreNone": bool(case.get("ignore_none")), "accepts": ["X"], "fields": fields}
+    # (a compact wrapper class: closed; the "inherited" variants are instances of the subclass XSub)
+    cname = "XSub" if str(case.get("compact", "")).startswith("inherited") else "X"
+    cls = {"k": "struct", "name": cname, "required": [f["name"] for f in case["fields"] if f["wrap"] not in ("optional", "optional-union")],
+           "addl": not case.get("compact"), "ignoreNone": bool(case.get("ignore_none")), "accepts": [cname], "fields": fields}
+    if case.get("undef"):
+        cls["undef"] = True       # _enable_undefined_value: an explicit None is a state of its own (XDecl.structU)
+        cls["ignoreNone"] = False   # ... also when the class says _ignore_none (probed: the explicit None is kept)
     if nested:
         cls = {"k": "struct", "name": "Outer", "required": ["inner"], "addl": True, "accepts": ["Outer"],
                "fields": [["inner", cls], ["tag", {"k": "base", "f": {"k": "string"}}]]}
@@ -888,7 +901,9 @@ def xwire(v):
     if isinstance(v, dict):
         return {"m": [[xwire(k), xwire(x)] for k, x in dict.items(v)]}
     if isinstance(v, Structure):
-        return {"o": [type(v).__name__, [[k, xwire(x)] for k, x in v.__dict__.items() if k not in dump.INTERNAL]]}
+        # (an _enable_undefined_value class keeps the names of attributes explicitly set to None in _none_fields)
+        return {"o": [type(v).__name__, [[k, xwire(x)] for k, x in v.__dict__.items() if k not in dump.INTERNAL]
+                      + [[k, None] for k in sorted(getattr(v, "_none_fields", None) or []) if k not in v.__dict__]]}
     return dump.dump_value(v)
 
 
